@@ -923,8 +923,13 @@ func (q *Queue) emitDSN(meta *QueueMetadata, header textproto.Header, failedRcpt
 		// rcptErr is stored in RcptErrs using the effective recipient address,
 		// not the original one.
 
-		originalRcpt := meta.MsgMeta.OriginalRcpts[rcpt]
-		if originalRcpt != "" {
+		// The address might be rewritten multiple times (e.g. by nested
+		// pipelines), follow the chain up to the address used by the sender.
+		for i := 0; i <= len(meta.MsgMeta.OriginalRcpts); i++ {
+			originalRcpt := meta.MsgMeta.OriginalRcpts[rcpt]
+			if originalRcpt == "" || originalRcpt == rcpt {
+				break
+			}
 			rcpt = originalRcpt
 		}
 
